@@ -55,4 +55,5 @@ meta["confirmed_by_verifier"] = {
     "quick_checks_on_mutant_at_time_of_confirmation": checks}
 json.dump(meta, open(mp, "w"), indent=1)
 PY
+find $wt -maxdepth 1 -name "test_output_*" -type d -empty -delete 2>/dev/null
 git -C /repo status --short | head -3
